@@ -298,6 +298,10 @@ static int STRUCTURE##_control_bin_input(struct upipe *upipe,               \
         case UPIPE_REGISTER_REQUEST: {                                      \
             struct urequest *request = va_arg(args_copy, struct urequest *);\
             ret = STRUCTURE##_alloc_bin_proxy(upipe, request);              \
+            /* The request is now proxied, even if nobody provided it yet:  \
+             * do not let the caller think the command was not handled. */  \
+            if (ret == UBASE_ERR_UNHANDLED)                                 \
+                ret = UBASE_ERR_NONE;                                       \
             break;                                                          \
         }                                                                   \
         case UPIPE_UNREGISTER_REQUEST: {                                    \
